@@ -866,6 +866,7 @@ pub struct ClientStats {
     pub bursts: u64,
     pub closure_panics: u64,
     pub adaptors: u64,
+    pub compile_debug_differs: u64,
     pub kept_matches_rechecked: u64,
     /// finished iterator histories: (history hash, features, nexts)
     pub iter_histories: Vec<(u64, u32, u32)>,
@@ -1847,6 +1848,16 @@ impl<'a> Client<'a> {
                         ArmedOut::Text(format!("Err({})", e))
                     }
                     Ok(re) => {
+                        // compiling is a function of (pattern, flags): a second compile must give
+                        // the same program (compared through the derived Debug output)
+                        if let Ok(re2) = compile(spec) {
+                            let (d1, d2) = (format!("{:?}", re), format!("{:?}", re2));
+                            if d1 != d2 {
+                                // information only: the property is about results, and a correct
+                                // program may legitimately carry an identity or a counter
+                                self.stats.compile_debug_differs += 1;
+                            }
+                        }
                         let m = open_iter(&re, spec, text, 0).next();
                         ArmedOut::Text(format!(
                             "Compiled;{}",
@@ -1885,6 +1896,7 @@ impl ClientStats {
         self.bursts += o.bursts;
         self.closure_panics += o.closure_panics;
         self.adaptors += o.adaptors;
+        self.compile_debug_differs += o.compile_debug_differs;
         self.kept_matches_rechecked += o.kept_matches_rechecked;
         self.range_observation_failures += o.range_observation_failures;
         self.iter_histories.extend(o.iter_histories.iter().cloned());
